@@ -41,6 +41,8 @@ def programs(ctx):
                       {"describe": "impl Add for Sn { type Output = [u8; Self::N]; .. }  derive_ex(Add)"}))
     out.append(E.Prog("p_kf_cfg_output", "#[derive(Clone)] pub struct Sc(pub u8);\n#[derive_ex::derive_ex(Sub)]\nimpl core::ops::Sub for Sc { #[cfg(any())] type Output = i16; #[cfg(all())] type Output = Sc; fn sub(self, r: Sc) -> Sc { Sc(self.0 - r.0) } }\n" + rp, [],
                       {"describe": "impl Sub for Sc { #[cfg(any())] type Output = i16; #[cfg(all())] type Output = Sc; .. }  derive_ex(Sub)"}))
+    out.append(E.Prog("p_kf_unsized_rhs_referent", "#[derive(Clone)] pub struct Ss(pub u8);\n#[derive_ex::derive_ex(Add)]\nimpl core::ops::Add<&str> for Ss { type Output = Ss; fn add(self, r: &str) -> Ss { Ss(self.0 + r.len() as u8) } }\n" + rp, [],
+                      {"describe": "impl Add<&str> for Ss { .. }  derive_ex(Add)"}))
     # the one recorded finding of this property, always re-observed: `Self` in the where-clause of an impl for `&T`
     out.append(fam2.c09_prog("p_%04d" % i, "Sub", True, True, False, ("bin",), generic=True, self_in_where=True))
     return out
